@@ -36,16 +36,19 @@ class Clock:
         return float("nan") if k is None else k / 1024.0
 
 
-def gen_case(rnd, tier):
+def gen_case(rnd, tier, long=False):
     be = rnd.choice(["h5", "npy"])
     h = rnd.randint(1, 5)
     nops = rnd.randint(0, 25 if tier == "quick" else 80)
     ops = []
     ncol = 0
     pat = rnd.choice(["fast", "slow", "alternating", "nonmonotone", "nan", "mixed"])
+    if long:
+        # a long chain written quickly: the flush interval keeps doubling (2, 4, ..., 1024, 2048)
+        h, nops, pat = 1, 2300, "fast"
     for _ in range(nops):
         x = rnd.random()
-        if x < 0.8:
+        if x < (0.8 if not long else 0.995):
             ops.append(("append", ncol))
             ncol += 1
         elif x < 0.9:
@@ -277,7 +280,7 @@ def run(tier, seed):
     dist = {"h5": 0, "npy": 0, "doubling": 0, "halving": 0, "empty": 0}
     try:
         for i in range(n):
-            c = gen_case(rnd, tier)
+            c = gen_case(rnd, tier, long=(i == 1))
             o = run_impl(c, wd)
             comb = combine_case(rnd, wd)
             cases.append(c)
@@ -316,7 +319,7 @@ def run(tier, seed):
     return {
         "evaluations": n, "distinct_nontrivial": len(seen),
         "rule": "op sequences over {append, flush, write_attribute} + close, heights 1..5, six wall-clock patterns (fast, slow, alternating, "
-                "non-monotone, NaN, boundary values 1023/1024/10240/10241 ms), both back ends; read back with burn-ins around the chain "
+                "non-monotone, NaN, boundary values 1023/1024/10240/10241 ms), both back ends, one chain of about 2300 columns written quickly (flush interval beyond 1024); read back with burn-ins around the chain "
                 "length and random index ranges; one combine_samples case per sequence; non-trivial = buffer interval doubled or halved",
         "samples": samples, "violations": violations,
         "traces_validated_against_impl": len(idx) - len(failing),
